@@ -17,19 +17,23 @@ type engSpec struct {
 	Prop   string
 	Engine string
 	Race   bool
+	// RaceShare n > 0: one in n seeded runs of the batch is executed by the race-detector build of
+	// the engine (same tape, same schedule); for properties whose statement speaks of concurrent
+	// callers but whose history oracles do not need the detector on every run
+	RaceShare int
 }
 
 var registry = []engSpec{
-	{"C01", "c01", false},
-	{"C02", "c02", false},
-	{"C03", "c03", false},
-	{"C04", "c04", false},
-	{"C09", "c09", false},
-	{"C10", "c10", false},
-	{"C11", "c11", true},
-	{"C12", "c12", false},
-	{"C18", "c18", false},
-	{"C20", "c20", false},
+	{"C01", "c01", false, 0},
+	{"C02", "c02", false, 10},
+	{"C03", "c03", false, 0},
+	{"C04", "c04", false, 0},
+	{"C09", "c09", false, 0},
+	{"C10", "c10", false, 0},
+	{"C11", "c11", true, 0},
+	{"C12", "c12", false, 0},
+	{"C18", "c18", false, 0},
+	{"C20", "c20", false, 0},
 }
 
 func specFor(id string) (engSpec, bool) {
